@@ -63,7 +63,9 @@ func (c *ChanReader) Read(out []byte) (int, error) {
 	}
 	n := copy(out, c.buffer)
 	c.buffer = c.buffer[n:]
-	if len(out) <= len(c.buffer) {
+	if n == len(out) {
+		// The caller's buffer is full: return without touching the channel, so that
+		// a remainder still held in c.buffer is never overwritten by the next chunk.
 		return n, nil
 	} else if n > 0 {
 		// We have some data to return, so make the channel read optional
